@@ -5,8 +5,9 @@ CLAIM = ('Real PlannerInputStates::nextStart/haveMoreStartStates/restart (the me
          'and a restarted one sees them again) for n start states, EVERY bounds/validity assignment and EVERY sequence of n+2 calls drawn from '
          '{nextStart, restart}: start states are handed out in order, each at most once until restart(), exactly the in-bounds and valid ones, '
          'validity is only asked for in-bounds states, null once none remains; plus the termination-condition semantics of C18 that decide when '
-         'solve() stops.')
-OUT = ('solve()/clear()/clearQuery()/setProblemDefinition histories of the real planners, memory leaks/double frees on interruption, "solve() '
+         'solve() stops. Interruption of a real solve loop: geometric::RRT::solve with the termination condition first true at evaluation k = 0..2 (before the first iteration included) under a fully '
+         'nondeterministic environment returns at that evaluation with a status that matches what the problem definition received, never reports an empty path, and leaks or double-frees no state.')
+OUT = ('every planner other than geometric::RRT; solve()/clear()/clearQuery()/setProblemDefinition histories and resumed solves, memory leaks/double frees on interruption, "solve() '
        'again only keeps or improves the solution": whole-planner runs are outside the encodable fragment (see C01)')
 ASSUMPTIONS = ['state space and validity checker are environment stubs; logging and std::stringstream are empty stubs']
 TUS = ['src/ompl/base/src/Planner.cpp', 'src/ompl/base/goals/src/GoalRegion.cpp', 'src/ompl/geometric/src/PathGeometric.cpp', 'src/ompl/base/src/SpaceInformation.cpp']
@@ -18,4 +19,7 @@ def queries(tier):
     for ns in ([0, 1, 2, 3] if tier == 'quick' else [0, 1, 2, 3, 4, 5]):
         qs.append(Query('next_start[n=%d]' % ns, 'C01_kernels.cpp', 'harness_next_start', tus=TUS, unwind=ns + 6, timeout=to, stdmodel=('vec',), defines={'NS': ns, 'VT_VEC_CAP': ns + 4},
                         checks='none', bound='%d start states, every bounds/validity assignment, every sequence of %d nextStart/restart calls' % (ns, ns + 2)))
+    # interruption of a real solve loop (same unit as C01: geometric::RRT::solve): see vt/props/C01.py
+    from vt.props import C01
+    qs += [q for q in C01.queries(tier) if q.name.startswith('rrt_solve') and 'starts=1' in q.name]
     return qs
